@@ -310,3 +310,51 @@ def run(ck, prog):
     fit(ck, prog)
     ck.floor("E1-lookup-failure", 4)
     ck.floor("E1-validation", 4)
+
+
+def order_agreement(ck, prog):
+    """the i-th mapper belongs to the i-th stored column index: the index vector is brought into its final order
+    BEFORE the mappers are built by iterating it (every in-place permutation of it dominates the loop)"""
+    rule, inst = "E2-order", "fit: category_mappers[i] is built for col_idx_categorical[i]"
+    try:
+        b = prog.one(r"^preprocessing::categorical::OneHotEncoder::fit$")
+    except AnchorError as e:
+        ck.violation(rule, inst, "fit", "", expected="anchor exists", found=f"anchor vanished: {e}")
+        return
+    res = Resolver(b)
+    stored = None
+    for i, j, s in b.stmts():
+        r = s["r"] if s["k"] == "assign" else None
+        if r and r["k"] == "agg" and r.get("name", "").endswith("OneHotEncoder") and "col_idx_categorical" in r.get("fields", []):
+            o = r["ops"][r["fields"].index("col_idx_categorical")]
+            stored = (root_local(b, o), b.where(i, j), i)
+    if not stored or stored[0] is None:
+        ck.violation(rule, inst, b.path, f"{b.loc[0]}:{b.loc[1]}", expected="the constructor stores the index vector", found="not found")
+        return
+    idl = stored[0]
+    PERM = ("::sort", "::sort_unstable", "::sort_by", "::sort_by_key", "::sort_unstable_by", "::reverse", "::swap", "::dedup", "::retain", "::rotate_left", "::rotate_right")
+    perms = [d.bb for d in b.defs.get(idl, []) if d.kind == "mutcall" and d.data.get("f") and d.data["f"]["path"].endswith(PERM)]
+    # the loop that builds the mappers iterates the same vector
+    loops = [bb for bb, t in b.calls() if t.get("f") and t["f"]["path"].endswith("IntoIterator::into_iter") and _mentions_local(b, t["args"][0], idl)]
+    fits = [bb for bb, t in b.calls() if t.get("f") and t["f"]["path"].endswith("CategoryMapper::<C>::fit_to_iter")]
+    problems = []
+    if not loops:
+        problems.append("the mappers are not built by iterating the stored index vector")
+    for pb in perms:
+        if not all(b.dominates(pb, lb) for lb in loops):
+            problems.append(f"the index vector is permuted at {b.where(pb)} after (or independently of) the loop that builds the mappers")
+    if not all(any(b.dominates(lb, fb) for lb in loops) for fb in fits):
+        problems.append("a mapper is fitted outside the loop over the index vector")
+    if problems:
+        ck.violation(rule, inst, b.path, stored[1], expected="sort (or any permutation) of the index vector happens before the mapper loop", found="; ".join(problems))
+    else:
+        ck.ok(rule, inst, b.path, stored[1], f"{len(perms)} in-place permutation(s), all before the loop")
+
+
+_run_c18 = run
+
+
+def run(ck, prog):
+    _run_c18(ck, prog)
+    order_agreement(ck, prog)
+    ck.floor("E2-order", 1)
